@@ -13,8 +13,8 @@ MODES = ["grant", "sess", "vp"]
 
 # deviations of the code from the statement: signature -> deviation constant of AuthV1.tla
 EXPECTED = {
-    ("token-for-defective-grant", "signer=otherdid"): "SignerBound",
-    ("token-for-defective-grant", "win=noexp"): "ExpRequired",
+    # SignerBound (signer=otherdid) and ExpRequired (win=noexp) were repaired in auth/services/oauth/authz_server.go: TRUE in the
+    # descriptive configurations, a token for such a grant is a VIOLATION again
     ("token-for-defective-grant", "usi=othersigner"): "IdentityBound",
     ("session-never-evicted", ""): "EvictionRuns",
     ("foreign-token-active", "grant"): "TokenTyped",
